@@ -3,7 +3,9 @@
 Implementation side: a generated grammar with 2..5 leaf classes whose `name` comes
 from ID (required / optional), STRING, a user match rule (`Dotted: ID('.'ID)*;`),
 the case's numeric rule (INT | FLOAT | BOOL | NUMBER) or is absent, 0..3 abstract
-targets built from simple alternatives (`A0: L0 | L1;`, nested), the all-embracing
+targets (`A0: L0 | L1;`, nested, 1..3 rule alternatives — plain or with string matches around
+the reference `'(' L1 ')'` — and match alternatives `INT`, `STRING`, `Dotted`, `'nil'` … at any
+position, in front of the common alternatives too), the all-embracing
 `Elem` and `OBJECT` targets, and reference rules with a single-valued
 (`one=[T]`, `one=[T|STRING]`, `one=[T|INT]` …) and a list (`many+=[T|Rule][',']`)
 attribute per target and match rule.  A generated model tree (nested named
@@ -12,7 +14,10 @@ across classes and kinds; the pools contain the falsy values `""`, `0`, `0.0`,
 `false`), a builtins dictionary (keys of any kind; instances of metamodel classes
 whose own name may differ from the key, and a foreign Python object) and 1..5
 references are loaded through `metamodel_from_str(...).model_from_str(...)`
-with the default scope provider — optionally with `textx_tools_support`, with
+with the default scope provider; the builtins reach the metamodel as the complete dict at
+construction, as an empty dict that the user fills afterwards (the usual pattern when the
+builtin objects are instances of the metamodel's own classes), partly filled, filled
+between two models, by `mm.builtins = ...`, or as None (`bmode_of`) — optionally with `textx_tools_support`, with
 user classes whose instances are falsy (`__len__` == 0), and after another model
 (same shape, other names) was loaded with the same metamodel.
 Observed: the resolved attribute values as object identities (pre-order number
@@ -386,11 +391,14 @@ class Prop(Check):
     QUICK_CASES = 800
     THOROUGH_CASES = 40000
     RULE = ("generated grammar (2..5 leaf classes whose name is ID required / ID optional / absent / STRING / a user match "
-            "rule / the case's numeric rule INT|FLOAT|BOOL|NUMBER, 0..3 nested abstract targets from simple alternatives, "
-            "Elem and OBJECT targets) x model tree of 2..12 objects named from per-kind pools of 2..6 values that share "
+            "rule / the case's numeric rule INT|FLOAT|BOOL|NUMBER, 0..3 nested abstract targets with 1..3 rule alternatives "
+            "(plain or string matches around the reference) and 0..2 match alternatives (base type / user match rule / "
+            "string match) at any position, Elem and OBJECT targets) x model tree of 2..12 objects named from per-kind pools of 2..6 values that share "
             "names across kinds and contain the falsy values '' / 0 / 0.0 / false x builtins dict (0..3 entries, keys of "
             "any kind: metamodel-class instances whose own name may differ from the key, foreign object; generated or "
-            "user classes, user instances optionally falsy) x 1..5 references in single and list attributes with the "
+            "user classes, user instances optionally falsy; handed over complete at construction / as an empty or partly filled dict "
+            "that is filled afterwards through the user's reference / filled between two models / assigned to "
+            "mm.builtins / None) x 1..5 references in single and list attributes with the "
             "match rule of any kind (unique / dangling / ambiguous / builtins) x textx_tools_support on/off x another "
             "model loaded before with the same metamodel or not; "
             "non-trivial = some reference's name is carried by >= 2 objects (model or builtins) or by none, so that "
